@@ -231,6 +231,7 @@ def correspond(res):
     # ---- second stream: the real model families on all grid types, independent quadrature per cell
     _real_stream(res, rng, viol, 1 if not thorough else 4)
     _copula_stream(res, rng, viol)
+    _param_pairs(res, rng, viol)
 
     header = ("From Coq Require Import ZArith QArith Qabs List Bool.\nFrom RV Require Import Base.QB Model.Grid Gen.GenC01Trunc Model.Chain.\n"
               "Open Scope Q_scope.")
@@ -429,6 +430,103 @@ def _copula_stream(res, rng, viol, configs=None):
                 viol("copula chain: reported intensity differs from the sum of the cell masses", got=lam, want=tot, **ctx)
 
 
+FAMILY_PARAMS = {
+    "HEM": dict(sigma=0.1, p=0.6, eta1=25.0, eta2=40.0, intensity=5.0),
+    "MERTON": dict(sigma=0.1, mu_j=0.01, sigma_j=0.05, intensity=5.0),
+    "VG": dict(sigma=0.1, nu=0.02, theta=0.1),
+    "CGMY": dict(c=0.05, g=10.0, m=8.0, y=0.5),
+}
+PERTURB = {"p": 0.35, "mu_j": 0.03, "theta": -0.05, "y": 1.2}     # others are scaled by 1.3
+
+
+def _independent_intensity(model, grid):
+    """mass of the truncated support minus the central cell, by quadrature of the model's own density"""
+    ax = grid.axes[0]
+    o = grid.origin_coordinate.value
+    nu = model.levy_triplet.nu
+    hl, hr = grid.middle(float(ax[o - 1]), 0.0), grid.middle(0.0, float(ax[o + 1]))
+    return _quad_mass(nu, float(ax[0]), hl) + _quad_mass(nu, hr, float(ax[-1]))
+
+
+def check_chain_intensity(viol, model, grid, ctx):
+    from rpylib.distribution.samplingfactory import create_q_vector
+    import warnings
+    with warnings.catch_warnings():
+        warnings.simplefilter("ignore")
+        chain = build_chain(model, grid)
+        q = create_q_vector(chain.model.levy_triplet.nu, grid)
+        want = _independent_intensity(model, grid)
+    lam = float(chain.intensity_of_jumps)
+    if abs(float(np.sum(q)) - lam) > 1e-9 * max(lam, 1e-300):
+        viol("reported intensity differs from the sum of the rates (second model of the same family on an equal grid)",
+             got=lam, want=float(np.sum(q)), **ctx)
+    elif abs(lam - want) > 1e-6 * max(abs(want), 1e-12):
+        viol("reported intensity differs from the mass of the truncated support minus the central cell (quadrature of the density)",
+             got=lam, want=float(want), **ctx)
+
+
+def check_copula_intensity(viol, specs, grid, ctx):
+    """copula chain: the reported intensity must be the sum of the masses of all non-origin cells of THIS model"""
+    from rpylib.process.markovchain.markovchainlevycopula import MarkovChainLevyCopula
+    from rpylib.distribution.sampling import SamplingMethod
+    from stepmeasure import build_copula_model
+    import itertools, warnings
+    with warnings.catch_warnings():
+        warnings.simplefilter("ignore")
+        model = build_copula_model(specs, "clayton", theta=0.75, eta=0.25)
+        chain = MarkovChainLevyCopula(levy_copula_model=model, grid=grid, method=SamplingMethod.INVERSION)
+        ax = [float(x) for x in grid.axes[0]]
+        n, o = len(ax), grid.origin_coordinate.value[0]
+        tot = 0.0
+        for i, j in itertools.product(range(n), repeat=2):
+            if (i, j) != (o, o):
+                lo = tuple(0.5 * (ax[max(0, k - 1)] + ax[k]) for k in (i, j))
+                hi = tuple(0.5 * (ax[k] + ax[min(n - 1, k + 1)]) for k in (i, j))
+                tot += float(chain.model.mass(lo, hi))
+    lam = float(chain.intensity_of_jumps)
+    if abs(tot - lam) > 1e-9 * (1 + lam):
+        viol("copula chain: reported intensity differs from the sum of the cell masses (second model with the same family of margins on an equal grid)",
+             got=lam, want=tot, **ctx)
+
+
+def _param_pairs(res, rng, viol):
+    """pairs of models of one family that differ in ONE parameter (every parameter in turn, also those a __repr__ might
+    omit), built in the same interpreter on the SAME grid object and on EQUAL fixed-size grids, in both orders: each chain
+    must report its own intensity (a value cached under a key that does not identify the model would leak)"""
+    from rpylib.grid.spatial import CTMCUniformGrid
+    for fam, base in FAMILY_PARAMS.items():
+        for par in base:
+            pert = dict(base)
+            pert[par] = PERTURB.get(par, base[par] * 1.3)
+            s0, s1 = {"family": fam, "kwargs": dict(base)}, {"family": fam, "kwargs": pert}
+            shared = CTMCUniformGrid.create_from_fixed_nb_of_points(h=0.05, nb_of_points=12)
+            for order, (sa, sb) in enumerate(((s0, s1), (s1, s0))):
+                for k, sp in enumerate((sa, sb)):
+                    grid = shared if order == 0 else CTMCUniformGrid.create_from_fixed_nb_of_points(h=0.05, nb_of_points=12)
+                    ctx = dict(kind="pair", family=fam, parameter=par, model=sp, first=sa, second=sb, same_grid_object=(order == 0), position=k)
+                    res.count(("pair", fam, par, order, k), kind=f"one-parameter pair {fam}")
+                    res.bump("pair_parameter", f"{fam}.{par}")
+                    try:
+                        check_chain_intensity(viol, build_model_spec(sp), grid, ctx)
+                    except Exception as e:  # noqa
+                        viol(f"building the chain raises {type(e).__name__}", reason=str(e)[:200], **ctx)
+            # copula chains whose margins are the two models, and the two swapped-parameter variants, on equal 2-d grids
+            if fam in ("HEM", "CGMY") or par in ("sigma_j", "nu"):
+                for specs2 in ([s0, s0], [s1, s1], [s0, s1], [s1, s0]):
+                    g2 = CTMCUniformGrid.create_from_fixed_nb_of_points(h=0.05, nb_of_points=4, dimension=2)
+                    ctx = dict(kind="pair-copula", family=fam, parameter=par, margins=specs2)
+                    res.count(("pair-copula", fam, par, json.dumps(specs2, sort_keys=True)), kind=f"one-parameter pair copula {fam}")
+                    try:
+                        check_copula_intensity(viol, specs2, g2, ctx)
+                    except Exception as e:  # noqa
+                        viol(f"building the copula chain raises {type(e).__name__}", reason=str(e)[:200], **ctx)
+
+
+def build_model_spec(sp):
+    from stepmeasure import build_model
+    return build_model(sp)
+
+
 def search(res):
     rng = random.Random(res.seed + 7)
 
@@ -442,6 +540,13 @@ def replay(path):
     print(json.dumps(data, indent=1)[:3000])
     from rpylib.distribution.samplingfactory import create_q_vector
     from stepmeasure import build_model, make_grid
+    if data.get("kind") in ("pair", "pair-copula"):
+        out = []
+        _param_pairs(type("R", (), {"count": lambda *a, **kw: None, "bump": lambda *a, **kw: None})(), random.Random(0),
+                     lambda what, **kw: out.append((what, kw.get("family"), kw.get("parameter"), kw.get("got"), kw.get("want"))))
+        out = [o for o in out if o[1] == data.get("family") and o[2] == data.get("parameter")]
+        print("still fails:" if out else "no failure on replay", out[:3])
+        return 1 if out else 0
     if data.get("kind") == "copula":
         out = []
         _copula_stream(type("R", (), {"count": lambda *a, **kw: None})(), random.Random(0),
